@@ -564,4 +564,15 @@ example :
     r.2 = [.declared 0, .declared 1, .buffered, .buffered, .delivered, .buffered, .accepted, .accepted, .rejectedUnknown, .sessionError] ∧
     r.1.delivered.map (·.label) = [3, 1, 4] := by decide
 
+/-- the witness of the known finding C09 `resource:link-credit-lost-by-rollback`, in the model's terms: a link is
+    handed what `delivered` lists and counts nothing else; after four posts under a transaction that is rolled back
+    it has been handed none of the four deliveries its peer has sent (and used credit for), and
+    `rollback_delivers_nothing` with `isolation` says it never will be — nothing in the model (as in the code) tells
+    the link that those deliveries happened. Replayed on the implementation by the `txn` runs for C09. -/
+example :
+    let r := run init [.declare 0, .post ⟨some 0, 0, 1⟩, .post ⟨some 0, 0, 2⟩, .post ⟨some 0, 0, 3⟩, .post ⟨some 0, 0, 4⟩,
+                        .discharge 0 0 (some true)]
+    r.2 = [.declared 0, .buffered, .buffered, .buffered, .buffered, .accepted] ∧
+    (r.1.delivered.filter (·.link == 0)).length = 0 := by decide
+
 end Amqp.Txn
